@@ -42,7 +42,8 @@ RULE = ("per case: an interface DAG (<= 7 interfaces + Interface; chains, diamon
         "inconsistent orders), 1-3 classes with declarations, 4-6 operand declarations built from argument trees of "
         "depth <= 3 (tuples, lists, one-shot iterables (generator / iter() / map) at any depth, inline Declarations, references to earlier Declarations, implementedBy(cls) leaves "
         "and operands, implementedBy/providedBy(super(B, ob)) operands for self classes sharing B, equal-but-distinct twin "
-        "interfaces as probes for `in`), all ordered pairs for - and +; a case is non-trivial when some + put an interface in front "
+        "interfaces as probes for `in`, optional re-basing of interfaces between building some operands and "
+        "observing), all ordered pairs for - and +; a case is non-trivial when some + put an interface in front "
         "and some - removed a strict sub-interface; distinct = distinct (sizes, feature flags) signature")
 TRUSTED_BASE = ["Model/Ro.v as the transcription of ro.py / _calculate_sro (validated here through flattened() and "
                 "every extends decision)",
@@ -51,7 +52,9 @@ TRUSTED_BASE = ["Model/Ro.v as the transcription of ro.py / _calculate_sro (vali
                 "a Declaration object = its __bases__, a class = its specification) and the instantiation of the abstract "
                 "vocabulary spelled out in the C20_generated_* statements; the C versions of isOrExtends / providedBy / "
                 "implementedBy are tied by the correspondence only"]
-ASSUMPTIONS = ["static specification graph (no __bases__ reassignment while declarations are alive)",
+ASSUMPTIONS = ["the theorems speak about one specification graph; when interfaces are re-based while declarations are alive, "
+               "that is the CURRENT graph: the correspondence re-bases between building operands and observing, and the "
+               "propagation of the change itself is C02's subject",
                "interface names unique, so == is identity",
                "non-strict resolution orders (ZOPE_INTERFACE_STRICT_IRO unset)"]
 
@@ -173,7 +176,28 @@ def _gen_case(rng, tier):
             ops.append(["nolonger", rng.randrange(0, n + 1) if rng.random() < 0.05 else rng.randrange(1, n + 1)])
         else:
             ops.append(["directly", [_gen_tree(rng, 2, n, class_nodes, len(decls)) for _ in range(rng.choice([0, 1, 2, 3]))]])
-    return {"ifaces": ifaces, "classes": classes, "supers": supers, "decls": decls, "radd": radd, "cls": cls, "ops": ops}
+    case = {"ifaces": ifaces, "classes": classes, "supers": supers, "decls": decls, "radd": radd, "cls": cls, "ops": ops}
+    if n >= 3 and rng.random() < 0.4:
+        # re-base one or two interfaces after some of the operands exist (new bases keep the creation-order
+        # numbering, so no cycle); mostly REMOVE something below a diamond
+        steps = []
+        for _ in range(rng.choice([1, 1, 2])):
+            cands = [i for i in range(1, n + 1) if any(i in bs for bs in ifaces)] or list(range(1, n + 1))
+            i = rng.choice(cands)
+            old = ifaces[i - 1]
+            r = rng.random()
+            if r < 0.5:
+                new = [0]
+            elif r < 0.75 and len(old) > 1:
+                drop = rng.choice(old)
+                new = [b for b in old if b != drop]
+            else:
+                lower = list(range(1, i))
+                new = rng.sample(lower, min(len(lower), rng.choice([1, 2]))) if lower else [0]
+            steps.append([i, new])
+        case["rebase"] = steps
+        case["rebase_at"] = rng.randrange(len(supers), len(decls) + 1) if len(decls) >= len(supers) else 0
+    return case
 
 
 def _fixed_cases():
@@ -230,6 +254,19 @@ def _fixed_cases():
                                 {"args": [leaf(11)]}],
                       "radd": [1, 2, 3, 4, 1, 2], "cls": 10,
                       "ops": [["also", [leaf(4)]], ["nolonger", 4], ["also", [leaf(2), leaf(4)]]]})
+    # re-basing below a diamond: IExtra <- IRoot <- ILeft, IRight <- IBoth; then IRoot.__bases__ = (Interface,)
+    # with operands built before and after the change
+    cases.append({"ifaces": [[0], [1], [2], [2], [3, 4]], "classes": [{"bases": [], "decl": []}, {"bases": [], "decl": [5]}],
+                  "decls": [{"args": [leaf(3), leaf(4)]}, {"args": [leaf(5)]}, {"args": [leaf(1)]}, {"spec": 8},
+                            {"args": [leaf(3), leaf(4)]}, {"args": [leaf(5), leaf(1)]}],
+                  "rebase": [[2, [0]]], "rebase_at": 4,
+                  "radd": [1, 1, 5, 1, 1, 2], "cls": 7,
+                  "ops": [["also", [leaf(5), leaf(1)]], ["nolonger", 1], ["also", [leaf(1)]], ["nolonger", 2]]})
+    # C3-inconsistent declarations: the legacy order is what flattened() must give
+    cases.append({"ifaces": [[0], [0], [0], [1, 2, 3]], "classes": [{"bases": [], "decl": []}],
+                  "decls": [{"args": [leaf(4), leaf(3), leaf(2), leaf(1)]}, {"args": [leaf(1), leaf(4)]},
+                            {"args": [leaf(4), leaf(1), leaf(2), leaf(3)]}, {"args": [leaf(2), leaf(2), leaf(4)]}],
+                  "radd": [1, 2, 3, 4], "cls": 6, "ops": [["also", [leaf(1), leaf(4)]], ["nolonger", 2], ["also", [leaf(3)]]]})
     return cases
 
 
@@ -436,9 +473,14 @@ def replay_text(case, obs, mode):
             n + 2 + len(case["classes"]) + j, sd.get("via", "implementedBy"), sd["this"], sd["self"], sd["rem"]))
     L.append("T = [InterfaceClass('I%d' % i, ()) for i in range(1, " + str(n + 1) + ")]   # equal-but-distinct twins")
     L.append("D = []")
-    for d in case["decls"]:
+    rb = ["N[%d].__bases__ = (%s)" % (i, "".join("N[%d], " % b for b in bs)) for i, bs in case.get("rebase", [])]
+    for k, d in enumerate(case["decls"]):
+        if rb and k == case.get("rebase_at", 0):
+            L.extend(rb)
+            rb = []
         L.append("D.append(%s)" % ("N[%d]" % d["spec"] if "spec" in d else
                                    "Declaration(%s)" % ", ".join(_py_tree(x) for x in d["args"])))
+    L.extend(rb)
     L.append("name = lambda it: [k for o in it for k, v in N.items() if v is o]")
     L.append("for a, A in enumerate(D):")
     L.append("    print(a, 'iter', name(A), 'flattened', name(A.flattened()), 'contains', [x in A for x in N.values()], 'twins', [t in A for t in T])")
